@@ -41,6 +41,7 @@ type Info struct {
 	AtomicSites  int         `json:"atomic_sites"`
 	AtomicArgs   int         `json:"atomic_args"` // value operands of sync/atomic calls wrapped in SyncArg
 	AtomicVars   []string    `json:"atomic_vars"`
+	AtomicHeld   []string    `json:"atomic_held"` // package-level atomic.Value / atomic.Pointer whose contents are monitored
 	ScratchFuncs []scratchFn `json:"-"`
 	Knobs        []string    `json:"knobs"`
 	Globals      []string    `json:"globals"`
